@@ -11,6 +11,7 @@ import (
 	"github.com/diskfs/go-diskfs/filesystem"
 	"github.com/diskfs/go-diskfs/filesystem/iso9660"
 	"github.com/diskfs/go-diskfs/filesystem/squashfs"
+	"github.com/diskfs/go-diskfs/partition"
 	"github.com/diskfs/go-diskfs/partition/gpt"
 	"github.com/diskfs/go-diskfs/partition/mbr"
 
@@ -39,6 +40,7 @@ type detCase struct {
 	Placement string `json:"placement"` // whole gpt1 gpt3 mbr1
 	Previous  string `json:"previous"`  // "", or a type left behind in the same range
 	Label     string `json:"label"`
+	LSS       int64  `json:"lss,omitempty"` // logical sector size of the disk (0 = the type's usual one)
 }
 
 var fsTypes = map[string]filesystem.Type{"fat12": filesystem.TypeFat12, "fat16": filesystem.TypeFat16, "fat32": filesystem.TypeFat32, "ext4": filesystem.TypeExt4, "iso": filesystem.TypeISO9660, "squashfs": filesystem.TypeSquashfs}
@@ -62,7 +64,10 @@ func detLSS(typ string) int64 {
 
 // openDetDisk builds a disk.Disk over the device with the sector sizes the type needs at creation time.
 func openDetDisk(d *memdev.Dev, typ string, ro bool) (*disk.Disk, error) {
-	lss := detLSS(typ)
+	return openDetDiskLSS(d, detLSS(typ), ro)
+}
+
+func openDetDiskLSS(d *memdev.Dev, lss int64, ro bool) (*disk.Disk, error) {
 	dk := &disk.Disk{Backend: be(d, ro), Size: d.Size(), LogicalBlocksize: lss, PhysicalBlocksize: lss, DefaultBlocks: true}
 	_, _ = dk.GetPartitionTable()
 	return dk, nil
@@ -113,10 +118,15 @@ func runDetCase(c *detCase) (sig, msg, outcome string) {
 	if c.Type == "blank" {
 		lss = 512
 	}
+	if c.LSS != 0 {
+		lss = c.LSS
+	}
+	decoy := ""
 	psize := (c.Size + lss - 1) / lss * lss
 	var dev *memdev.Dev
 	part := 0
 	pstart := int64(0)
+	var callerTable partition.Table // the creating session keeps the caller's own table object, as Disk.Partition does
 	switch c.Placement {
 	case "whole":
 		dev = memdev.New(psize)
@@ -125,13 +135,17 @@ func runDetCase(c *detCase) (sig, msg, outcome string) {
 		if c.Placement == "gpt3" {
 			pstart = 2 << 20
 		}
+		if c.Placement == "gpt134" {
+			pstart = 4 << 20
+		}
 		total := pstart + psize + 1<<20
 		dev = memdev.New(total)
 		var err error
 		if c.Placement == "mbr1" {
 			part = 1
-			t := &mbr.Table{LogicalSectorSize: int(lss), PhysicalSectorSize: int(lss), Partitions: []*mbr.Partition{{Type: mbr.Linux, Start: uint32(pstart / lss), Size: uint32(psize / lss)}}}
+			t := &mbr.Table{LogicalSectorSize: int(lss), PhysicalSectorSize: int(lss), Partitions: []*mbr.Partition{{Index: 1, Type: mbr.Linux, Start: uint32(pstart / lss), Size: uint32(psize / lss)}}}
 			err = t.Write(dev, total)
+			callerTable = t
 		} else {
 			t := &gpt.Table{LogicalSectorSize: int(lss), PhysicalSectorSize: int(lss), ProtectiveMBR: true, GUID: fixedDiskGUID}
 			if c.Placement == "gpt3" {
@@ -139,11 +153,22 @@ func runDetCase(c *detCase) (sig, msg, outcome string) {
 				t.Partitions = append(t.Partitions,
 					&gpt.Partition{Index: 1, Start: uint64((1 << 20) / lss), End: uint64((1<<20+256<<10)/lss) - 1, Type: gpt.LinuxFilesystem, Name: "one", GUID: partGUID(1)},
 					&gpt.Partition{Index: 2, Start: uint64((1<<20 + 256<<10) / lss), End: uint64((1<<20+512<<10)/lss) - 1, Type: gpt.LinuxFilesystem, Name: "two", GUID: partGUID(2)})
+			} else if c.Placement == "gpt134" {
+				// used slots 1, 3 and 4 (slot 2 empty): the target is partition 4, partition 3 holds a decoy of another type
+				part = 4
+				decoy = "fat12"
+				if c.Type == "fat12" || lss != 512 {
+					decoy = "fat32"
+				}
+				t.Partitions = append(t.Partitions,
+					&gpt.Partition{Index: 1, Start: uint64((1 << 20) / lss), End: uint64((1<<20+256<<10)/lss) - 1, Type: gpt.LinuxFilesystem, Name: "one", GUID: partGUID(1)},
+					&gpt.Partition{Index: 3, Start: uint64((2 << 20) / lss), End: uint64((3<<20)/lss) - 1, Type: gpt.LinuxFilesystem, Name: "three", GUID: partGUID(3)})
 			} else {
 				part = 1
 			}
 			t.Partitions = append(t.Partitions, &gpt.Partition{Index: part, Start: uint64(pstart / lss), End: uint64((pstart+psize)/lss) - 1, Type: gpt.LinuxFilesystem, Name: "target", GUID: partGUID(9)})
 			err = t.Write(dev, total)
+			callerTable = t
 		}
 		if err != nil {
 			return "", "", "setup:" + errShape(err.Error())
@@ -194,7 +219,16 @@ func runDetCase(c *detCase) (sig, msg, outcome string) {
 		}
 		return "", "", "blank-ok"
 	}
-	dk, _ := openDetDisk(dev, c.Type, false)
+	dk, _ := openDetDiskLSS(dev, lss, false)
+	if callerTable != nil && c.Placement == "gpt134" {
+		dk.Table = callerTable
+	}
+	if decoy != "" {
+		var derr error
+		if pm := guard(func() { _, derr = createFS(dk, decoy, 3, "DECOY") }); pm != "" || derr != nil {
+			return "", "", "n/a"
+		}
+	}
 	var cerr error
 	if pm := guard(func() { _, cerr = createFS(dk, c.Type, part, c.Label) }); pm != "" {
 		return "create|" + tag + "|" + pm, "CreateFilesystem panicked: " + pm, "panic"
@@ -204,7 +238,7 @@ func runDetCase(c *detCase) (sig, msg, outcome string) {
 	}
 	// fresh disk on the same bytes, same open options
 	rd := dev.Clone()
-	fresh, _ := openDetDisk(rd, c.Type, true)
+	fresh, _ := openDetDiskLSS(rd, lss, true)
 	if c.Placement != "whole" {
 		tb, err := fresh.GetPartitionTable()
 		if err != nil {
@@ -216,6 +250,16 @@ func runDetCase(c *detCase) (sig, msg, outcome string) {
 		}
 		if tb.Type() != want {
 			return "table|" + c.Placement + "|reported-as-" + tb.Type(), fmt.Sprintf("a %s disk is reported as %s", want, tb.Type()), "bad"
+		}
+	}
+	if decoy != "" {
+		var dfs filesystem.FileSystem
+		var derr error
+		if pm := guard(func() { dfs, derr = fresh.GetFilesystem(3) }); pm != "" {
+			return "detect|" + tag + "|decoy|" + pm, pm, "panic"
+		}
+		if derr != nil || dfs.Type() != fsTypes[decoy] {
+			return "detect|" + tag + "|neighbour-partition", fmt.Sprintf("partition 3 of a GPT with slots 1,3,4 holds %s but is returned as %v (%v)", decoy, dfs, derr), "bad"
 		}
 	}
 	var fs filesystem.FileSystem
@@ -327,6 +371,17 @@ func enumC12(quick bool) []detCase {
 				cs = append(cs, detCase{Type: ty, Size: sz, Placement: pl, Previous: "dirnoise", Label: "NEW"})
 			}
 		}
+	}
+	// GPT with an empty slot before the target (slots 1, 3, 4) and a decoy of another type in partition 3
+	for _, ty := range types {
+		cs = append(cs, detCase{Type: ty, Size: sizes[ty][0], Placement: "gpt134", Label: "LBL"})
+	}
+	// 4096-byte logical sectors (FAT32 is the writable type that supports them; squashfs always uses them here)
+	for _, pl := range []string{"whole", "gpt1", "mbr1", "gpt134"} {
+		for _, sz := range []int64{M, 33 * M, 260*M + 4096} {
+			cs = append(cs, detCase{Type: "fat32", Size: sz, Placement: pl, Label: "LBL", LSS: 4096})
+		}
+		cs = append(cs, detCase{Type: "ext4", Size: 16 * M, Placement: pl, Label: "LBL", LSS: 4096})
 	}
 	for _, pl := range []string{"whole", "gpt1", "gpt3", "mbr1"} {
 		cs = append(cs, detCase{Type: "blank", Size: 4 * M, Placement: pl})
